@@ -247,6 +247,26 @@ static int print_f(void (*printchar_handler)(void *d, int c),
         r = 0.0;
     }
 
+    if (isinf((DOUBLE)r))
+    {
+        /* the digit loops below never finish on an infinity; ISO C prints
+         * [-]inf / [-]INF, padded with spaces even under the 0 flag */
+        str = &buff[0];
+        if (signbit(r))
+            *str++ = '-';
+        else if (ops & OPS_FLAG_WITH_SIGN)
+            *str++ = '+';
+        else if (ops & OPS_FLAG_EXTRA_SPACE)
+            *str++ = ' ';
+        strcpy(str, ops & OPS_SPEC_UPPER_CASE ? "INF" : "inf");
+        return print_s(printchar_handler,
+                       printchar_data,
+                       &buff[0],
+                       width,
+                       0,
+                       ops & OPS_FLAG_LEFT_ALIGN);
+    }
+
     postfix = end = str = &buff[0] + sizeof buff / sizeof buff[0] - 1;
     *end = '\0';
     prefix = signbit(r) ? (r = -r, base == 16)
